@@ -8,6 +8,7 @@
 import Proofs.Lemmas.ContainerRun
 import Proofs.Lemmas.ComposeCycles
 import Proofs.Lemmas.ComposeStats
+import Proofs.Lemmas.ComposeContainer
 
 namespace C15
 open Container
@@ -460,5 +461,68 @@ theorem container_vectors_are_index_map_vectors (s : State) (h : Inv s) (sel : S
 theorem metric_is_cycle_statistic (f : List Rat → Rat) (cv : List Int) (vals : List Rat) :
     lookupStat f cv vals = (CycleStats.cycleStat f vals cv).map some :=
   ComposeStats.lookupStat_eq_cycleStat f cv vals
+
+/-- Link to the cycle detector's model (C12) and to C16's well-formedness: in every state reachable
+    from the constructor by any operation history, the container's label vector **is** the C12 cycle
+    vector of the phase with all cycles requested and no mask (`get_cycle_vector(phase,
+    return_good=False)`; run-shaped and code-shaped model), `K` is the detector's number of cycles, the
+    vector has one label per sample and is well formed in the sense of the index-map model (labels
+    0..K-1 all used, non-decreasing, contiguous blocks — C16's hypothesis).  With at least one wrap it
+    covers every sample with a label in 0..K-1; without a wrap there is no cycle at all. -/
+theorem container_cv_is_cycle_vector (F : List Char → Option Rat) (g : Cycles.GoodCfg) (pstep thr : Rat)
+    (cache : Bool) (ph : List Rat) (ops : List Op) :
+    let s := run F (init g pstep thr cache ph).1 ops
+    s.cv = Cycles.getCycleVector g pstep false ph (List.replicate ph.length true) ∧
+    s.cv = Cycles.cvIdx (Cycles.wrapAt pstep) (fun _ => true) ph ∧
+    s.K = Cycles.nCycles (Cycles.cvSegs (Cycles.wrapAt pstep) (fun _ => true) ph) ∧
+    s.cv.length = ph.length ∧
+    Maps.WF s.cv s.K ∧
+    (Cycles.wrapIdx (Cycles.wrapAt pstep) ph 0 ≠ [] → ∀ l ∈ s.cv, 0 ≤ l ∧ l < (s.K : Int)) ∧
+    (Cycles.wrapIdx (Cycles.wrapAt pstep) ph 0 = [] → s.K = 0 ∧ ∀ l ∈ s.cv, l = -1) := by
+  intro s
+  obtain ⟨hcv, hK⟩ := ComposeContainer.run_cv F g pstep thr cache ph ops
+  have hK' : s.K = Cycles.nCycles (Cycles.cvSegs (Cycles.wrapAt pstep) (fun _ => true) ph) := by
+    rw [← ComposeContainer.nLabels_paint]; exact hK
+  have hwf : Maps.WF s.cv s.K := by
+    show Maps.WF (run F (init g pstep thr cache ph).1 ops).cv (run F (init g pstep thr cache ph).1 ops).K
+    rw [hcv, hK, ComposeContainer.nLabels_paint]
+    exact Maps.paint_cvSegs_wf _ _ _
+  have hcode : s.cv = Cycles.cvIdx (Cycles.wrapAt pstep) (fun _ => true) ph := by
+    rw [C12.code_model_refines]; exact hcv
+  refine ⟨by rw [ComposeContainer.getCycleVector_all]; exact hcv, hcode, hK',
+    by show (run F (init g pstep thr cache ph).1 ops).cv.length = _; rw [hcv]; exact C12.cv_length _ _ _, hwf, ?_, ?_⟩
+  · intro hw l hl
+    refine ⟨?_, (hwf.range l hl).2⟩
+    rw [hcode] at hl
+    exact C12.code_model_all_cover _ ph hw l hl
+  · intro hw
+    have hall : ∀ l ∈ s.cv, l = -1 := by
+      intro l hl
+      rw [hcode] at hl
+      exact C12.code_model_no_wrap _ _ ph hw l hl
+    refine ⟨?_, hall⟩
+    cases hk : s.K with
+    | zero => rfl
+    | succ k =>
+      have := hall _ (hwf.occurs 0 (by omega))
+      omega
+
+-- non-vacuity: a phase with two wraps (three cycles) — the hypothesis `wrapIdx … ≠ []` is satisfiable
+example : Cycles.wrapIdx (Cycles.wrapAt 4) [1, 5, 0, 3, 6, 1] 0 = [2, 5] := by decide +kernel
+example : Cycles.cvIdx (Cycles.wrapAt 4) (fun _ => true) [1, 5, 0, 3, 6, 1] = [0, 0, 1, 1, 1, 2] := by decide +kernel
+
+/-- Link to the quality-check model (C13): `EmdModel/Cycles.lean` has its own model of "the container's
+    per-cycle quality flag" (`Cycles.containerIsGood`: `is_good` on every run of the all-cycles partition),
+    of which C13 proves that it agrees with the labels of `get_cycle_vector(return_good=True)`
+    (`C13.container_flag_agrees`).  The `is_good` metric the container model's constructor stores —
+    through `compute_cycle_metric`, cache on or off — is exactly that vector (True ↦ 1.0, False ↦ 0.0). -/
+theorem init_is_good_is_quality_flag (g : Cycles.GoodCfg) (pstep thr : Rat) (cache : Bool) (ph : List Rat) :
+    sget (init g pstep thr cache ph).1.metrics isGoodName =
+      some ((Cycles.containerIsGood g pstep ph).map fun b => some (if b then 1 else 0)) := by
+  have h := init_is_good g pstep thr cache ph
+  obtain ⟨hcv, hK⟩ := ComposeContainer.run_cv (fun _ => none) g pstep thr cache ph []
+  simp only [run, List.foldl_nil] at hcv hK
+  simp only [] at h
+  rw [h, hcv, hK, ComposeContainer.isGood_metric]
 
 end C15
